@@ -17,7 +17,7 @@ CHECKS = {
                 'meaning (status, value, end), to restore/report positions consistently with the real always_succeeds/can_partially_succeed '
                 'flags, and to write only its own temporaries. By structural induction this covers every grammar over these constructs.',
         'design_ref': 'DESIGN.md 6 C01',
-        'note': 'Trusted: VC generator (pyvc), z3/cvc5, outsourcer, CPython. Assumed: induction argument on paper (A-meta), A-subst, '
+        'note': 'Trusted: VC generator (pyvc), z3/cvc5, outsourcer, CPython. Assumed: A-meta (the induction itself is machine-checked in Lean, meta/Compose.lean; the correspondence of its hypotheses to the clause families is not), A-subst, '
                 'A-uniform (arity <= 3 quick / <= 4 thorough proved outright; literal sentinels), re contract, driver contract, well-formed grammars (partial correctness).',
     },
     'C03': {
